@@ -19,6 +19,7 @@ class FakeWriter:
         self.log = log if log is not None else []
         self.tag = tag
         self.close_delay = 0        # seconds the transport takes to finish closing (a stalled peer)
+        self.drain_delay = 0        # seconds a write takes to drain (flow control paused: the peer stopped reading)
 
     def write(self, b):
         self.writes += 1
@@ -28,6 +29,8 @@ class FakeWriter:
         self.frames.append(bytes(b))
 
     async def drain(self):
+        if self.drain_delay:
+            await asyncio.sleep(self.drain_delay)
         return None
 
     def close(self):
